@@ -32,10 +32,12 @@ JRt(T) ==
 MustRaise == {"bad-strand", "non-numeric-start", "bad-name-format", "extra-column", "only-two-columns", "drop-column-2", "gap-first"}
 JCorrupt(T) == /\ ((T.exc # "" \/ T.nrows = T.nlines) \/ Say(T, "V", "C05.one_row_per_line_or_error", T.fmt \o "/" \o T.what))
                /\ ((T.what \notin MustRaise \/ T.exc # "") \/ Say(T, "M", "parser_accepts_corrupt_line", T.fmt \o "/" \o T.what))
+ObjectRepeated(lines) == \E q \in 2..Len(lines) : lines[q].obj = lines[q - 1].obj /\ lines[q].part = 1 /\ lines[q].beg = 1
 JAgp(T) ==
   /\ TLCSet(3, TLCGet(3) + 1)
   /\ (T.lossless = 1 \/ Say(T, "V", "C06.agp_valid", T.src \o "/unparsable-columns"))
-  /\ (T.lossless = 0 \/ AgpValid(T.lines) \/ Say(T, "V", "C06.agp_valid", T.src))
+  \* (detail: an object whose lines start again at part 1 directly after its own last line is named as such - two scaffolds of one name)
+  /\ (T.lossless = 0 \/ AgpValid(T.lines) \/ Say(T, "V", "C06.agp_valid", T.src \o (IF ObjectRepeated(T.lines) THEN "/object-repeated" ELSE "")))
   /\ (T.lossless = 0 \/ (\A q \in 1..Len(T.expect) : T.expect[q].obj \in Objects(T.lines) /\ ObjLength(T.lines, T.expect[q].obj) = T.expect[q].len)
         \/ Say(T, "V", "C06.object_length", T.src))
 \* asm-format command line (AsmFormatCli.tla): T.sc = scenario, T.exit / T.exc, T.where in {"stdout", "file"}, T.lines = output split into fields
